@@ -1,1 +1,533 @@
-// placeholder
+//! Generic tokeniser for the brace languages typeshare emits (TypeScript, Kotlin, Swift, Scala, Go).
+//! It knows comments (nested where the language nests them), string / char / raw-string literals
+//! and backtick identifiers, and records byte spans so that C15 can classify every byte.
+use crate::sut::LangId;
+
+#[derive(Clone, Copy, Debug, PartialEq, Eq)]
+pub enum TokKind {
+    Ident,
+    Num,
+    Str,
+    Punct,
+}
+
+#[derive(Clone, Debug)]
+pub struct Tok {
+    pub kind: TokKind,
+    /// identifier text (backticks removed), unescaped string value, number text or punctuation
+    pub text: String,
+    pub start: usize,
+    pub end: usize,
+    pub nl_before: bool,
+    pub backticked: bool,
+}
+
+#[derive(Clone, Debug)]
+pub struct Comment {
+    pub start: usize,
+    pub end: usize,
+    /// text without the comment markers
+    pub text: String,
+    pub block: bool,
+}
+
+#[derive(Clone, Debug, Default)]
+pub struct Lexed {
+    pub toks: Vec<Tok>,
+    pub comments: Vec<Comment>,
+    /// spans of string literals (for byte classification)
+    pub strings: Vec<(usize, usize)>,
+    /// definite lexical error (unterminated literal / comment, stray character)
+    pub error: Option<String>,
+}
+
+const MULTI: &[&str] = &[
+    "===", "!==", "...", "->", "=>", "==", "!=", "&&", "||", "::", ":=", "<=", ">=", "?.", "??", "+=", "-=",
+];
+
+pub fn lex(lang: LangId, src: &str) -> Lexed {
+    let b = src.as_bytes();
+    let mut out = Lexed::default();
+    let mut i = 0usize;
+    let mut nl = true;
+    let nested = matches!(lang, LangId::Swift | LangId::Kotlin | LangId::Scala);
+    while i < b.len() {
+        let c = b[i];
+        if c == b'\n' {
+            nl = true;
+            i += 1;
+            continue;
+        }
+        if c == b' ' || c == b'\t' || c == b'\r' {
+            i += 1;
+            continue;
+        }
+        // comments
+        if c == b'/' && i + 1 < b.len() && b[i + 1] == b'/' {
+            let s = i;
+            while i < b.len() && b[i] != b'\n' {
+                i += 1;
+            }
+            let body = src[s + 2..i].trim_start_matches('/').to_string();
+            out.comments.push(Comment { start: s, end: i, text: body, block: false });
+            continue;
+        }
+        if c == b'/' && i + 1 < b.len() && b[i + 1] == b'*' {
+            let s = i;
+            i += 2;
+            let mut depth = 1;
+            while i < b.len() && depth > 0 {
+                if b[i] == b'*' && i + 1 < b.len() && b[i + 1] == b'/' {
+                    depth -= 1;
+                    i += 2;
+                } else if nested && b[i] == b'/' && i + 1 < b.len() && b[i + 1] == b'*' {
+                    depth += 1;
+                    i += 2;
+                } else {
+                    i += 1;
+                }
+            }
+            if depth > 0 {
+                out.error = Some(format!("unterminated block comment starting at byte {s}"));
+                return out;
+            }
+            let inner = &src[s + 2..i - 2];
+            if inner.contains('\n') {
+                nl = true;
+            }
+            out.comments.push(Comment { start: s, end: i, text: inner.to_string(), block: true });
+            continue;
+        }
+        // TypeScript regular-expression literal (only inside the reviver helper): `/` where no operand can end
+        if c == b'/' && lang == LangId::Ts {
+            let operand_before = matches!(out.toks.last(), Some(t) if t.kind != TokKind::Punct || t.text == ")" || t.text == "]");
+            if !operand_before {
+                let s = i;
+                i += 1;
+                let mut closed = false;
+                let mut in_class = false;
+                while i < b.len() && b[i] != b'\n' {
+                    match b[i] {
+                        b'\\' => i += 1,
+                        b'[' => in_class = true,
+                        b']' => in_class = false,
+                        b'/' if !in_class => {
+                            closed = true;
+                            break;
+                        }
+                        _ => {}
+                    }
+                    i += 1;
+                }
+                if !closed {
+                    out.error = Some(format!("unterminated regular expression literal at byte {s}"));
+                    return out;
+                }
+                i += 1;
+                while i < b.len() && (b[i] as char).is_ascii_alphabetic() {
+                    i += 1;
+                }
+                out.strings.push((s, i));
+                out.toks.push(Tok { kind: TokKind::Str, text: src[s..i].to_string(), start: s, end: i, nl_before: nl, backticked: false });
+                nl = false;
+                continue;
+            }
+        }
+        // strings
+        if c == b'"' {
+            let s = i;
+            let triple = i + 2 < b.len() && b[i + 1] == b'"' && b[i + 2] == b'"' && lang != LangId::Go && lang != LangId::Ts;
+            if triple {
+                i += 3;
+                let mut closed = false;
+                while i + 2 < b.len() + 0 {
+                    if b[i] == b'"' && b[i + 1] == b'"' && b[i + 2] == b'"' {
+                        i += 3;
+                        closed = true;
+                        break;
+                    }
+                    i += 1;
+                }
+                if !closed {
+                    out.error = Some(format!("unterminated triple-quoted string at byte {s}"));
+                    return out;
+                }
+                out.strings.push((s, i));
+                out.toks.push(Tok { kind: TokKind::Str, text: src[s + 3..i - 3].to_string(), start: s, end: i, nl_before: nl, backticked: false });
+                nl = false;
+                continue;
+            }
+            i += 1;
+            let mut val = String::new();
+            let mut closed = false;
+            while i < b.len() {
+                let ch = b[i];
+                if ch == b'\\' {
+                    if i + 1 >= b.len() {
+                        break;
+                    }
+                    let e = b[i + 1];
+                    match e {
+                        b'n' => val.push('\n'),
+                        b't' => val.push('\t'),
+                        b'r' => val.push('\r'),
+                        b'0' => val.push('\0'),
+                        b'u' => {
+                            // \u{XXXX} (Rust {:?}, Swift) or \uXXXX
+                            let mut j = i + 2;
+                            let mut hex = String::new();
+                            if j < b.len() && b[j] == b'{' {
+                                j += 1;
+                                while j < b.len() && b[j] != b'}' {
+                                    hex.push(b[j] as char);
+                                    j += 1;
+                                }
+                                j += 1;
+                            } else {
+                                while j < b.len() && hex.len() < 4 && (b[j] as char).is_ascii_hexdigit() {
+                                    hex.push(b[j] as char);
+                                    j += 1;
+                                }
+                            }
+                            if let Some(chh) = u32::from_str_radix(&hex, 16).ok().and_then(char::from_u32) {
+                                val.push(chh);
+                            }
+                            i = j;
+                            continue;
+                        }
+                        other => val.push(other as char),
+                    }
+                    i += 2;
+                    continue;
+                }
+                if ch == b'"' {
+                    closed = true;
+                    i += 1;
+                    break;
+                }
+                if ch == b'\n' {
+                    break;
+                }
+                // copy one UTF-8 char
+                let chs = src[i..].chars().next().unwrap();
+                val.push(chs);
+                i += chs.len_utf8();
+            }
+            if !closed {
+                out.error = Some(format!("unterminated string literal starting at byte {s}"));
+                return out;
+            }
+            out.strings.push((s, i));
+            out.toks.push(Tok { kind: TokKind::Str, text: val, start: s, end: i, nl_before: nl, backticked: false });
+            nl = false;
+            continue;
+        }
+        if c == b'\'' {
+            // TS: string; Kotlin/Scala/Go: char literal; Swift: not a literal at all
+            let s = i;
+            i += 1;
+            let mut val = String::new();
+            let mut closed = false;
+            while i < b.len() {
+                let ch = b[i];
+                if ch == b'\\' && i + 1 < b.len() {
+                    val.push(b[i + 1] as char);
+                    i += 2;
+                    continue;
+                }
+                if ch == b'\'' {
+                    closed = true;
+                    i += 1;
+                    break;
+                }
+                if ch == b'\n' {
+                    break;
+                }
+                let chs = src[i..].chars().next().unwrap();
+                val.push(chs);
+                i += chs.len_utf8();
+            }
+            if !closed || lang == LangId::Swift {
+                out.error = Some(format!("stray or unterminated single-quote literal at byte {s}"));
+                return out;
+            }
+            if lang != LangId::Ts && val.chars().count() != 1 {
+                // Scala symbols ('sym) exist but typeshare never emits them
+                out.error = Some(format!("malformed character literal at byte {s}"));
+                return out;
+            }
+            out.strings.push((s, i));
+            out.toks.push(Tok { kind: TokKind::Str, text: val, start: s, end: i, nl_before: nl, backticked: false });
+            nl = false;
+            continue;
+        }
+        if c == b'`' {
+            let s = i;
+            i += 1;
+            let mut closed = false;
+            let st = i;
+            while i < b.len() {
+                if b[i] == b'`' {
+                    closed = true;
+                    break;
+                }
+                if b[i] == b'\n' && lang != LangId::Go && lang != LangId::Ts {
+                    break;
+                }
+                i += 1;
+            }
+            if !closed {
+                out.error = Some(format!("unterminated backtick literal at byte {s}"));
+                return out;
+            }
+            let inner = src[st..i].to_string();
+            i += 1;
+            match lang {
+                LangId::Go | LangId::Ts => {
+                    out.strings.push((s, i));
+                    out.toks.push(Tok { kind: TokKind::Str, text: inner, start: s, end: i, nl_before: nl, backticked: true });
+                }
+                _ => {
+                    if inner.is_empty() {
+                        out.error = Some(format!("empty backtick identifier at byte {s}"));
+                        return out;
+                    }
+                    out.toks.push(Tok { kind: TokKind::Ident, text: inner, start: s, end: i, nl_before: nl, backticked: true });
+                }
+            }
+            nl = false;
+            continue;
+        }
+        // identifiers
+        let ch = src[i..].chars().next().unwrap();
+        if ch.is_alphabetic() || ch == '_' || ch == '$' {
+            let s = i;
+            while i < b.len() {
+                let ch = src[i..].chars().next().unwrap();
+                if ch.is_alphanumeric() || ch == '_' || ch == '$' {
+                    i += ch.len_utf8();
+                } else {
+                    break;
+                }
+            }
+            out.toks.push(Tok { kind: TokKind::Ident, text: src[s..i].to_string(), start: s, end: i, nl_before: nl, backticked: false });
+            nl = false;
+            continue;
+        }
+        if ch.is_ascii_digit() {
+            let s = i;
+            while i < b.len() && ((b[i] as char).is_ascii_alphanumeric() || b[i] == b'.' || b[i] == b'_') {
+                // stop at ".." or ".ident"
+                if b[i] == b'.' && !(i + 1 < b.len() && (b[i + 1] as char).is_ascii_digit()) {
+                    break;
+                }
+                i += 1;
+            }
+            out.toks.push(Tok { kind: TokKind::Num, text: src[s..i].to_string(), start: s, end: i, nl_before: nl, backticked: false });
+            nl = false;
+            continue;
+        }
+        if !ch.is_ascii() {
+            out.error = Some(format!("stray non-ASCII character {ch:?} at byte {i}"));
+            return out;
+        }
+        // punctuation
+        let mut matched = None;
+        for m in MULTI {
+            if src[i..].starts_with(m) {
+                matched = Some(*m);
+                break;
+            }
+        }
+        let text = matched.map(|m| m.to_string()).unwrap_or_else(|| (c as char).to_string());
+        if matches!(c, b'#' | b'\\') && !(lang == LangId::Swift && c == b'#') {
+            out.error = Some(format!("stray character {:?} at byte {i}", c as char));
+            return out;
+        }
+        let l = text.len();
+        out.toks.push(Tok { kind: TokKind::Punct, text, start: i, end: i + l, nl_before: nl, backticked: false });
+        nl = false;
+        i += l;
+    }
+    out
+}
+
+/// Check that (), [] and {} are balanced and properly nested over the token stream.
+pub fn check_balanced(toks: &[Tok]) -> Result<(), String> {
+    let mut stack: Vec<(char, usize)> = vec![];
+    for t in toks {
+        if t.kind != TokKind::Punct {
+            continue;
+        }
+        match t.text.as_str() {
+            "(" | "[" | "{" => stack.push((t.text.chars().next().unwrap(), t.start)),
+            ")" | "]" | "}" => {
+                let want = match t.text.as_str() {
+                    ")" => '(',
+                    "]" => '[',
+                    _ => '{',
+                };
+                match stack.pop() {
+                    Some((o, _)) if o == want => {}
+                    Some((o, p)) => return Err(format!("mismatched delimiter {} at byte {} closes {} opened at byte {}", t.text, t.start, o, p)),
+                    None => return Err(format!("unbalanced closing {} at byte {}", t.text, t.start)),
+                }
+            }
+            _ => {}
+        }
+    }
+    if let Some((o, p)) = stack.pop() {
+        return Err(format!("unclosed {o} opened at byte {p}"));
+    }
+    Ok(())
+}
+
+/// Parse failure: `definite` = the language certainly rejects this text; otherwise the text is
+/// balanced but outside the declaration subset this parser knows (inconclusive).
+#[derive(Debug, Clone)]
+pub struct Fail {
+    pub definite: bool,
+    pub msg: String,
+    pub pos: usize,
+}
+
+pub type PResult<T> = Result<T, Fail>;
+
+/// Token cursor with the helpers the recursive-descent parsers share.
+pub struct Cur<'a> {
+    pub toks: &'a [Tok],
+    pub i: usize,
+}
+
+impl<'a> Cur<'a> {
+    pub fn new(toks: &'a [Tok]) -> Self {
+        Cur { toks, i: 0 }
+    }
+    pub fn eof(&self) -> bool {
+        self.i >= self.toks.len()
+    }
+    pub fn peek(&self) -> Option<&'a Tok> {
+        self.toks.get(self.i)
+    }
+    pub fn peek_at(&self, n: usize) -> Option<&'a Tok> {
+        self.toks.get(self.i + n)
+    }
+    pub fn pos(&self) -> usize {
+        self.peek().map(|t| t.start).unwrap_or_else(|| self.toks.last().map(|t| t.end).unwrap_or(0))
+    }
+    pub fn is_p(&self, p: &str) -> bool {
+        matches!(self.peek(), Some(t) if t.kind == TokKind::Punct && t.text == p)
+    }
+    pub fn is_p_at(&self, n: usize, p: &str) -> bool {
+        matches!(self.peek_at(n), Some(t) if t.kind == TokKind::Punct && t.text == p)
+    }
+    pub fn is_kw(&self, k: &str) -> bool {
+        matches!(self.peek(), Some(t) if t.kind == TokKind::Ident && !t.backticked && t.text == k)
+    }
+    pub fn is_kw_at(&self, n: usize, k: &str) -> bool {
+        matches!(self.peek_at(n), Some(t) if t.kind == TokKind::Ident && !t.backticked && t.text == k)
+    }
+    pub fn is_ident(&self) -> bool {
+        matches!(self.peek(), Some(t) if t.kind == TokKind::Ident)
+    }
+    pub fn is_str(&self) -> bool {
+        matches!(self.peek(), Some(t) if t.kind == TokKind::Str)
+    }
+    pub fn nl_before(&self) -> bool {
+        self.peek().map(|t| t.nl_before).unwrap_or(true)
+    }
+    pub fn bump(&mut self) -> Option<&'a Tok> {
+        let t = self.toks.get(self.i);
+        if t.is_some() {
+            self.i += 1;
+        }
+        t
+    }
+    pub fn eat_p(&mut self, p: &str) -> bool {
+        if self.is_p(p) {
+            self.i += 1;
+            true
+        } else {
+            false
+        }
+    }
+    pub fn eat_kw(&mut self, k: &str) -> bool {
+        if self.is_kw(k) {
+            self.i += 1;
+            true
+        } else {
+            false
+        }
+    }
+    pub fn fail<T>(&self, definite: bool, msg: impl Into<String>) -> PResult<T> {
+        let near: Vec<String> = self.toks[self.i.min(self.toks.len())..].iter().take(6).map(|t| t.text.clone()).collect();
+        Err(Fail { definite, msg: format!("{} (near: {})", msg.into(), near.join(" ")), pos: self.pos() })
+    }
+    pub fn expect_p(&mut self, p: &str) -> PResult<()> {
+        if self.eat_p(p) {
+            Ok(())
+        } else {
+            self.fail(true, format!("expected `{p}`"))
+        }
+    }
+    pub fn expect_kw(&mut self, k: &str) -> PResult<()> {
+        if self.eat_kw(k) {
+            Ok(())
+        } else {
+            self.fail(true, format!("expected keyword `{k}`"))
+        }
+    }
+    pub fn expect_ident(&mut self) -> PResult<&'a Tok> {
+        match self.peek() {
+            Some(t) if t.kind == TokKind::Ident => {
+                self.i += 1;
+                Ok(t)
+            }
+            _ => self.fail(true, "expected identifier"),
+        }
+    }
+    pub fn expect_str(&mut self) -> PResult<&'a Tok> {
+        match self.peek() {
+            Some(t) if t.kind == TokKind::Str => {
+                self.i += 1;
+                Ok(t)
+            }
+            _ => self.fail(true, "expected string literal"),
+        }
+    }
+    /// current token is an opening delimiter: skip to just after its match, return the inner tokens
+    pub fn skip_balanced(&mut self) -> PResult<&'a [Tok]> {
+        let open = match self.peek() {
+            Some(t) if t.kind == TokKind::Punct && matches!(t.text.as_str(), "(" | "[" | "{") => t.text.clone(),
+            _ => return self.fail(true, "expected an opening delimiter"),
+        };
+        let start = self.i + 1;
+        let mut depth = 0i32;
+        while let Some(t) = self.peek() {
+            if t.kind == TokKind::Punct {
+                match t.text.as_str() {
+                    "(" | "[" | "{" => depth += 1,
+                    ")" | "]" | "}" => {
+                        depth -= 1;
+                        if depth == 0 {
+                            let inner = &self.toks[start..self.i];
+                            self.i += 1;
+                            return Ok(inner);
+                        }
+                    }
+                    _ => {}
+                }
+            }
+            self.i += 1;
+        }
+        self.fail(true, format!("unclosed `{open}`"))
+    }
+}
+
+/// Is byte offset `pos` inside a comment / a string literal?
+pub fn in_comment(l: &Lexed, pos: usize) -> bool {
+    l.comments.iter().any(|c| c.start <= pos && pos < c.end)
+}
+pub fn in_string(l: &Lexed, pos: usize) -> bool {
+    l.strings.iter().any(|c| c.0 <= pos && pos < c.1)
+}
